@@ -151,6 +151,24 @@ Definition cbo_step (fixed : bool) (p : policy) (st : ostate) (batch : list obj)
 Definition run (fixed : bool) (p : policy) (n0 : Z) (hist : list (list obj)) : ostate :=
   fold_left (cbo_step fixed p) hist (mkO [] n0).
 
+(* ---------- CBO.fit_surrogate(checkpoint): a second way failures reach the optimizer ----------
+   [objs]: the objectives of the rows of an earlier results table (after that search's _on_done).  The rows without a
+   failure are told first (negated), then one marker per failed row; n_initial_points becomes 0, so a fit follows at once.
+   pinned: the markers are told whatever the policy (under "ignore" the marker then reaches the estimator: F72), and the
+   tell happens even when nothing is left.  fixed: failed rows are dropped under "ignore", like CBO._tell does; with
+   nothing to tell the search starts from scratch (n0 initial points). *)
+Definition restart_told (fixed : bool) (p : policy) (objs : list obj) : list told :=
+  let ys := filter_map (cbo_tell_one false) objs in
+  succ_of ys ++ (if fixed && ignores p then [] else filter is_fail ys).
+Definition restart (fixed : bool) (p : policy) (n0 : Z) (objs : list obj) : ostate :=
+  match restart_told fixed p objs with
+  | [] => mkO [] (if fixed then n0 else 0%Z)
+  | ys => opt_tell (mkO [] 0%Z) ys
+  end.
+(* the search continued after the restart *)
+Definition run_from (fixed : bool) (p : policy) (st : ostate) (hist : list (list obj)) : ostate :=
+  fold_left (cbo_step fixed p) hist st.
+
 (* a surrogate is fitted when: fit and self._n_initial_points <= 0 (and there is a base estimator) *)
 Definition fit_due (st : ostate) : bool := (ninit st <=? 0)%Z.
 
@@ -194,6 +212,10 @@ Section Fit.
   Variable sc : list fnum -> list fnum.            (* objective_scaler.fit_transform on the successful values *)
   Variable scal : list (list fnum) -> list fnum.   (* _moo_scalarize on the successful vectors: scaler, penalty, scalarisation *)
 
+  (* when every observation is a failure there is nothing to scale: [scatter] does not look at the values then.  The
+     pinned _tell still calls objective_scaler.fit_transform on the EMPTY array, which sklearn's QuantileTransformer /
+     MinMaxScaler reject (F73, reachable with n_initial_points = 0, i.e. after fit_surrogate on an all-failed checkpoint);
+     the repaired code skips the call.  The theorems assume nothing about sc [] / scal []. *)
   Definition scalarized (ys : list told) : list told :=
     if existsb is_vec ys then scatter ys (scal (map vec_of (succ_of ys)))
     else scatter ys (sc (map num_of (succ_of ys))).
